@@ -124,7 +124,7 @@ def gen_steps(rng, info, n, p_opt, allow_gen_interleave=True, p_reopen=0.15):
 def gen_scenario(seed, profile=None):
     rng = random.Random(seed)
     profile = profile or {}
-    spec = pick_world(rng, p_corpus=profile.get("p_corpus", 0.22),
+    spec = pick_world(rng, p_corpus=profile.get("p_corpus", 0.27),
                       p_leaky=profile.get("p_leaky", 0.12),
                       max_glyphs=profile.get("max_glyphs", 14))
     sid = "c07-%d" % seed
